@@ -27,7 +27,7 @@ ASSUMPTIONS = [
     "a trade's multi-order grouping is not recoverable after a restart and is not compared",
 ]
 
-OPS = ["place", "place", "cancel", "cancel_part", "update", "replace", "fill", "fill_part", "lapse", "snap", "snap", "process", "process",
+OPS = ["place", "place", "cancel", "cancel_part", "update", "replace", "replace", "task_race", "fill", "fill_part", "lapse", "snap", "snap", "process", "process",
        "process_dup", "task", "task", "task_race", "task_race", "task_fail", "quiesce", "restart", "foreign"]
 
 
